@@ -385,4 +385,129 @@ example : mulDivSigned 64 7 (-5) 2 = some (-17) := by decide
 example : usdToMarketTokenAmount 128 (10 ^ 22) 0 0 (10 ^ 11) = some (10 ^ 11) := by decide
 example : powInt 64 (10 ^ 9) (2 * 10 ^ 9) 3 = some (8 * 10 ^ 9) := by decide
 
+/-! ### Audit additions: stronger statements -/
+
+/-- non-zero divisor (the case `divToFactorSigned_zero` leaves open): magnitude `⌊U·|v|/d⌋`, sign
+of `v`, and the magnitude fits the signed type. -/
+theorem divToFactorSigned_spec {W U d : Nat} {v r : Int} (hd : d ≠ 0)
+    (h : divToFactorSigned W U v d = some r) :
+    r.natAbs = U * v.natAbs / d ∧ (0 < v → 0 ≤ r) ∧ (v ≤ 0 → r ≤ 0) ∧ r.natAbs < 2 ^ (W - 1) := by
+  simp only [divToFactorSigned, hd, if_false] at h
+  exact (mulDivSigned_spec h).2
+example : (-35 : Int).natAbs = 10 * (-7 : Int).natAbs / 2 :=
+  (divToFactorSigned_spec (W := 64) (by decide) (by decide : divToFactorSigned 64 10 (-7) 2 = some (-35))).1
+
+/-- exact success/failure characterisation of unsigned + signed (for a left operand that fits):
+it succeeds exactly when the true sum is a natural number that fits, and then returns it.
+(`checkedAddWithSigned_spec` gives soundness only.) -/
+theorem checkedAddWithSigned_iff {W a : Nat} {s : Int} {r : Nat} (ha : a < 2 ^ W) :
+    checkedAddWithSigned W a s = some r ↔ (a : Int) + s = r ∧ r < 2 ^ W := by
+  unfold checkedAddWithSigned checkedAdd checkedSub toU
+  constructor
+  · intro h; split at h <;> split at h <;> cases h <;> omega
+  · rintro ⟨h1, h2⟩
+    split <;> split <;> first | exact congrArg some (by omega) | (exfalso; omega)
+example : checkedAddWithSigned 64 10 (-3) = some 7 :=
+  (checkedAddWithSigned_iff (by decide)).2 ⟨by decide, by decide⟩
+
+/-- same for unsigned − signed. -/
+theorem checkedSubWithSigned_iff {W a : Nat} {s : Int} {r : Nat} (ha : a < 2 ^ W) :
+    checkedSubWithSigned W a s = some r ↔ (a : Int) - s = r ∧ r < 2 ^ W := by
+  unfold checkedSubWithSigned checkedAdd checkedSub toU
+  constructor
+  · intro h; split at h <;> split at h <;> cases h <;> omega
+  · rintro ⟨h1, h2⟩
+    split <;> split <;> first | exact congrArg some (by omega) | (exfalso; omega)
+example : checkedSubWithSigned 64 10 (-3) = some 13 :=
+  (checkedSubWithSigned_iff (by decide)).2 ⟨by decide, by decide⟩
+
+/-- `powExact` (the value `powInt_spec` pins a successful `checked_pow` to) never exceeds the true
+power: `powExact U b n · Uⁿ ≤ U · bⁿ`, i.e. `powExact U b n ≤ bⁿ / Uⁿ⁻¹` — the iterated floor only
+loses. Ties the recursion-shaped spec to ordinary exponentiation. -/
+theorem powExact_le_pow {U b : Nat} : ∀ n, powExact U b n * U ^ n ≤ U * b ^ n
+  | 0 => by simp [powExact]
+  | n + 1 => by
+    have ih := powExact_le_pow (U := U) (b := b) n
+    show powExact U b n * b / U * U ^ (n + 1) ≤ U * b ^ (n + 1)
+    have h1 : powExact U b n * b / U * U ≤ powExact U b n * b := Nat.div_mul_le_self _ _
+    calc powExact U b n * b / U * U ^ (n + 1)
+        = (powExact U b n * b / U * U) * U ^ n := by rw [Nat.pow_succ]; ac_rfl
+      _ ≤ (powExact U b n * b) * U ^ n := Nat.mul_le_mul_right _ h1
+      _ = (powExact U b n * U ^ n) * b := by ac_rfl
+      _ ≤ (U * b ^ n) * b := Nat.mul_le_mul_right _ ih
+      _ = U * b ^ (n + 1) := by rw [Nat.pow_succ, Nat.mul_assoc]
+
+/-- a successful integer-exponent `checked_pow` is bounded by the true power. -/
+theorem powInt_le_pow {W U base n r : Nat} (h : powInt W U base n = some r) :
+    r * U ^ n ≤ U * base ^ n := by
+  obtain ⟨rfl, _⟩ := powInt_spec h
+  exact powExact_le_pow n
+example : 8 * 10 ^ 9 * (10 ^ 9) ^ 3 ≤ 10 ^ 9 * (2 * 10 ^ 9) ^ 3 :=
+  powInt_le_pow (W := 64) (by decide : powInt 64 (10 ^ 9) (2 * 10 ^ 9) 3 = some (8 * 10 ^ 9))
+
+/-! ### Non-vacuity (audit additions): the remaining hypothesis-carrying theorems, instantiated -/
+example : (7 / 2) * 2 ≤ 7 ∧ 7 < (7 / 2 + 1) * 2 := floor_char 7 2 (by decide)
+example : 7 ≤ ceilDiv 7 2 * 2 ∧ ceilDiv 7 2 * 2 < 7 + 2 := ceil_char 7 2 (by decide)
+example : 3 * 2 ≤ 7 * 1 ∧ 7 * 1 < (3 + 1) * 2 :=
+  mulDiv_floor (W := 64) (by decide : mulDiv 64 7 1 2 = some 3)
+/-- both failure branches of `mulDiv_none_iff` / `mulDivCeil_none_iff`, and the last fitting value. -/
+example : mulDiv 64 (2 ^ 63) 4 2 = none ∧ mulDiv 64 5 5 0 = none ∧
+    mulDiv 64 (2 ^ 64 - 1) 2 2 = some (2 ^ 64 - 1) := by decide
+example : 7 * 1 ≤ 4 * 2 ∧ 4 * 2 < 7 * 1 + 2 :=
+  mulDivCeil_ceil (W := 64) (by decide : mulDivCeil 64 7 1 2 = some 4)
+example : mulDivCeil 64 (2 ^ 64 - 1) 3 2 = none ∧ mulDivCeil 64 1 1 0 = none := by decide
+example : (3 : Nat) ≠ 0 ∧ 3 = ceilDiv 7 3 ∧ 7 ≤ 3 * 3 ∧ 3 * 3 < 7 + 3 :=
+  roundUpDiv_sound (W := 64) (by decide : roundUpDiv 64 7 3 = some 3)
+example : roundUpDiv 64 5 0 = none := by decide
+/-- `roundUpMagnitudeDiv`: positive and negative dividends, and its four failure causes (zero
+divisor, divisor not fitting the signed type, `d + k` / `d − k` overflowing). -/
+example : roundUpMagnitudeDiv 64 3 7 = some 3 ∧ roundUpMagnitudeDiv 64 3 (-7) = some (-3) ∧
+    roundUpMagnitudeDiv 64 0 5 = none ∧ roundUpMagnitudeDiv 64 (2 ^ 63) 5 = none ∧
+    roundUpMagnitudeDiv 64 2 (2 ^ 63 - 1) = none ∧ roundUpMagnitudeDiv 64 2 (-(2 ^ 63 - 1)) = none := by decide
+example : (-3 : Int).natAbs = ceilDiv (-7 : Int).natAbs 3 :=
+  (roundUpMagnitudeDiv_spec (W := 64) (by decide : roundUpMagnitudeDiv 64 3 (-7) = some (-3))).2.1
+/-- `boundMagnitude`: above the maximum, inside the range, and the two error kinds. -/
+example : boundMagnitude 64 300 124 256 = .ok 256 := by rfl
+example : boundMagnitude 64 (-200) 124 256 = .ok (-200) := by rfl
+example : boundMagnitude 64 5 10 3 = .error .minGtMax := by rfl
+example : boundMagnitude 64 (-(2 ^ 63)) 0 (2 ^ 63) = .ok (-(2 ^ 63)) := by rfl
+example : 124 ≤ (-124 : Int).natAbs ∧ (-124 : Int).natAbs ≤ 256 :=
+  boundMagnitude_within (W := 64) (v := -123) (by rfl)
+example : (-17 : Int).natAbs = 7 * (-5 : Int).natAbs / 2 :=
+  (mulDivSigned_spec (W := 64) (by decide : mulDivSigned 64 7 (-5) 2 = some (-17))).2.1
+/-- the spurious failure of `mulDivSigned_none_iff` at magnitude `2^(W-1)`, the last fitting
+magnitude, and the zero divisor. -/
+example : mulDivSigned 64 (2 ^ 63) (-1) 1 = none ∧
+    mulDivSigned 64 (2 ^ 63 - 1) (-1) 1 = some (-9223372036854775807) ∧
+    mulDivSigned 64 1 1 0 = none := by decide
+/-- `usdToMt_spec`: the two other documented cases, and the failing `supply ≠ 0, pool = 0`. -/
+example : usdToMarketTokenAmount 128 (10 ^ 22) (10 ^ 22) 0 (10 ^ 11) = some (2 * 10 ^ 11) := by decide
+example : usdToMarketTokenAmount 128 (10 ^ 22) (4 * 10 ^ 22) (2 * 10 ^ 11) (10 ^ 11) = some (5 * 10 ^ 10) := by decide
+example : usdToMarketTokenAmount 128 5 0 7 1 = none := by decide
+example : (2 * 10 ^ 11 : Nat) ≠ 0 ∧ 10 ^ 22 = 4 * 10 ^ 22 * (5 * 10 ^ 10) / (2 * 10 ^ 11) ∧ 10 ^ 22 < 2 ^ 128 :=
+  mtToUsd_spec (by decide : marketTokenAmountToUsd 128 (5 * 10 ^ 10) (4 * 10 ^ 22) (2 * 10 ^ 11) = some (10 ^ 22))
+example : marketTokenAmountToUsd 128 5 7 0 = none := by decide
+example : applyFactor 128 (10 ^ 20) (10 ^ 12) (5 * 10 ^ 16) = some 500000000 ∧
+    applyFactor 128 0 1 1 = none := by decide
+example : 33333333333333333333 = 1 * 10 ^ 20 / 3 :=
+  divToFactor_floor (W := 128) (by decide) (by decide : divToFactor 128 (10 ^ 20) 1 3 false = some 33333333333333333333)
+example : 33333333333333333334 = ceilDiv (1 * 10 ^ 20) 3 :=
+  divToFactor_ceil (W := 128) (by decide) (by decide : divToFactor 128 (10 ^ 20) 1 3 true = some 33333333333333333334)
+example : fixedMul 64 (10 ^ 9) (2 * 10 ^ 9) (3 * 10 ^ 9) = some (6 * 10 ^ 9) := by decide
+/-- an intermediate product of `powInt` that does not fit makes the whole power fail. -/
+example : powInt 64 (10 ^ 9) (10 ^ 15) 3 = none := by decide
+example : ((10 : Nat) : Int) + (-3) = (7 : Nat) :=
+  checkedAddWithSigned_spec (W := 64) (by decide : checkedAddWithSigned 64 10 (-3) = some 7)
+example : checkedAddWithSigned 64 10 5 = some 15 ∧ checkedAddWithSigned 64 2 (-3) = none ∧
+    checkedAddWithSigned 64 (2 ^ 64 - 1) 1 = none := by decide
+example : ((10 : Nat) : Int) - 4 = (6 : Nat) :=
+  checkedSubWithSigned_spec (W := 64) (by decide : checkedSubWithSigned 64 10 4 = some 6)
+example : checkedSubWithSigned 64 10 (-5) = some 15 ∧ checkedSubWithSigned 64 2 3 = none ∧
+    checkedSubWithSigned 64 (2 ^ 64 - 1) (-1) = none := by decide
+example : (-42 : Int) = ((6 : Nat) : Int) * (-7) ∧ (-42 : Int).natAbs < 2 ^ (64 - 1) :=
+  checkedMulWithSigned_spec (by decide : checkedMulWithSigned 64 6 (-7) = some (-42))
+/-- failures of `checkedMulWithSigned`: the product not fitting; note `2^62 · (−2) = −2^63` IS
+representable in `i64` but is reported as failure (same spurious failure as `mulDivSigned`). -/
+example : checkedMulWithSigned 64 (2 ^ 62) 2 = none ∧ checkedMulWithSigned 64 (2 ^ 62) (-2) = none := by decide
+
 end Gmx.C01
